@@ -85,6 +85,7 @@ Inductive ccase :=
 | CCheck (mt : mtab) (k : N) (hexmode : bool) (tok : bytes) (exp : option bytes)
 | CSessNew (mt : mtab) (k : N) (maxttl ttl t0 : Z) (data exp_tok : bytes) (exp_expires : Z)
 | CSessCheck (mt : mtab) (k : N) (now : Z) (tok : bytes) (exp : option (bytes * Z))
+| CGate (mt : mtab) (k : N) (now : Z) (tok : bytes) (exp : option bytes)
 | CTsNew (mt : mtab) (k : N) (t0 : Z) (exp : bytes)
 | CTsCheck (mt : mtab) (k : N) (w now : Z) (tok : bytes) (exp : bool)
 | CRsaTime (w now : Z) (data hash hashd : bytes) (sigok : bool) (exp : N)
@@ -123,6 +124,8 @@ Definition check_case (c : ccase) : bool :=
       | Some (d, l), Some (d', l') => beq_bytes d d' && (l =? l')%Z
       | _, _ => false
       end
+  | CGate mt k now tok exp =>
+      opt_bytes_eqb (option_map fst (sess_check (mac_of mt) k now tok)) exp
   | CTsNew mt k t0 exp => beq_bytes (ts_token (mac_of mt) k t0) exp
   | CTsCheck mt k w now tok exp => Bool.eqb (ts_check (mac_of mt) k w now tok) exp
   | CRsaTime w now data hash hashd sigok exp =>
